@@ -1,10 +1,383 @@
-import PySMT.Proofs.C10PrenexEq
+import PySMT.Proofs.C10Merge
 /-!
-# C10 — `prenex_equiv_partial`: the main induction over the walk
+# C10 — `prenex_equiv`: the main induction over the walk (with alpha-renaming)
 -/
 namespace PySMT.Rewritings
 
-theorem prenexNode_le (fresh : Nat → String) (op : Op) (args : List Term) (p : Payload) (rs : List PRes) (n : Nat) :
+section
+variable {fresh : Nat → String}
+
+/-! ## symbols of a term -/
+
+theorem allSyms_node (op : Op) (args : List Term) (p : Payload) :
+    allSyms (.node op args p) =
+      (match p with | .sym s => [s] | .qvars vs => vs | _ => []) ++ (args.map allSyms).flatten := by
+  cases p <;> (rw [allSyms] <;> simp)
+
+theorem allSyms_child {op : Op} {args : List Term} {p : Payload} {a : Term} (ha : a ∈ args) {s : Sym}
+    (hs : s ∈ allSyms a) : s ∈ allSyms (.node op args p) := by
+  rw [allSyms_node]
+  apply List.mem_append_right
+  simp only [List.mem_flatten, List.mem_map]
+  exact ⟨_, ⟨a, ha, rfl⟩, hs⟩
+
+theorem allSyms_qvars {op : Op} {args : List Term} {vs : List Sym} {s : Sym} (hs : s ∈ vs) :
+    s ∈ allSyms (.node op args (.qvars vs)) := by
+  rw [allSyms_node]; exact List.mem_append_left _ hs
+
+theorem fv_sub_allSyms : (t : Term) → ∀ s ∈ t.fv, s ∈ allSyms t
+  | .node op args p => fun s hs => by
+    have hsub : ∀ x ∈ (args.map Term.fv).flatten, x ∈ allSyms (.node op args p) := by
+      intro x hx
+      simp only [List.mem_flatten, List.mem_map] at hx
+      obtain ⟨_, ⟨a, ha, rfl⟩, hxa⟩ := hx
+      exact allSyms_child ha (fv_sub_allSyms a x hxa)
+    rw [fv_node] at hs
+    split at hs
+    · simp only [List.mem_cons, List.not_mem_nil, or_false] at hs
+      subst hs; rw [allSyms_node]; simp
+    · simp only [List.mem_cons] at hs
+      rcases hs with rfl | hs
+      · rw [allSyms_node]; simp
+      · exact hsub s hs
+    · exact hsub s (List.mem_filter.mp hs).1
+    · exact hsub s (List.mem_filter.mp hs).1
+    · exact hsub s hs
+
+/-- no symbol of the term is a name of the supply -/
+def Avoids (fresh : Nat → String) (t : Term) : Prop := ∀ s ∈ allSyms t, ∀ k, s.name ≠ fresh k
+
+theorem Avoids.child {op : Op} {args : List Term} {p : Payload} (h : Avoids fresh (.node op args p)) :
+    ∀ a ∈ args, Avoids fresh a := fun _ ha s hs => h s (allSyms_child ha hs)
+
+theorem Avoids.fv {t : Term} (h : Avoids fresh t) : ∀ s ∈ t.fv, ∀ k, s.name ≠ fresh k :=
+  fun s hs => h s (fv_sub_allSyms t s hs)
+
+theorem plainBinders_node (op : Op) (args : List Term) (p : Payload) :
+    plainBinders (.node op args p) =
+      ((args.map plainBinders).all id &&
+        (match p with | .qvars vs => vs.all (fun v => v.params.isEmpty) | _ => true)) := by
+  cases p <;> (rw [plainBinders] <;> simp)
+
+theorem plainBinders_child {op : Op} {args : List Term} {p : Payload} (h : plainBinders (.node op args p) = true) :
+    ∀ a ∈ args, plainBinders a = true := by
+  intro a ha
+  rw [plainBinders_node] at h
+  simp only [Bool.and_eq_true, List.all_eq_true, List.mem_map] at h
+  exact h.1 _ ⟨a, ha, rfl⟩
+
+theorem plainBinders_vars {op : Op} {args : List Term} {vs : List Sym}
+    (h : plainBinders (.node op args (.qvars vs)) = true) : ∀ v ∈ vs, v.params = [] := by
+  rw [plainBinders_node] at h
+  simp only [Bool.and_eq_true, List.all_eq_true, List.isEmpty_iff] at h
+  exact h.2
+
+/-! ## the walker's rules -/
+
+/-- the invariant for a value given as a predicate (virtual formulas `¬a`, `a → b`) -/
+structure PInv (fresh : Nat → String) (n : Nat) (val : Interp → Bool) (fvs : List Sym)
+    (r : List QBlock × Term) : Prop where
+  wb : WB r.2
+  sem : ∀ I : Interp, I.WF → qsem r.1 (fun J => truth J r.2) I = val I
+  supp : Supp (fvs ++ boundOf r.1) (fun J => truth J r.2)
+  qf : r.2.isQF = true
+  nd : (boundOf r.1).Nodup
+  plain : ∀ s ∈ boundOf r.1, s.params = []
+  old : ∀ s ∈ boundOf r.1, Old fresh n s
+
+theorem PInv.toRInv {n : Nat} {val : Interp → Bool} {fvs : List Sym} {r : List QBlock × Term} {t : Term}
+    (h : PInv fresh n val fvs r) (hv : ∀ I : Interp, I.WF → val I = truth I t) (hf : ∀ s ∈ fvs, s ∈ t.fv) :
+    RInv fresh n t r :=
+  ⟨⟨h.wb, fun I hI => by rw [h.sem I hI, hv I hI], h.supp.mono (fun s hs => by
+      rcases List.mem_append.mp hs with h1 | h1
+      · exact List.mem_append_left _ (hf s h1)
+      · exact List.mem_append_right _ h1)⟩, h.qf, h.nd, h.plain, h.old⟩
+
+theorem rinv_atom {n : Nat} {t : Term} (h : WB t) (hqf : t.isQF = true) : RInv fresh n t ([], t) :=
+  ⟨⟨h, fun _ _ => rfl, (supp_truth t).mono (fun s hs => List.mem_append_left _ hs)⟩, hqf,
+    by simp [boundOf], by simp [boundOf], by simp [boundOf]⟩
+
+theorem fv_not (a : Term) (p : Payload) (s : Sym) : s ∈ (Term.node .not [a] p).fv ↔ s ∈ a.fv := by
+  rw [fv_node_plain _ _ _ (by decide) (by decide) (by decide)]
+  simp
+
+theorem rinv_not {n : Nat} {t : Term} {r : List QBlock × Term} (p : Payload) (h : RInv fresh n t r) :
+    RInv fresh n (.node .not [t] p) (prenexNot r) := by
+  have hg := h.good
+  have e : prenexNot r = (flipBlocks r.1, mkNot r.2) := rfl
+  rw [e]
+  have htr : ∀ J : Interp, J.WF → truth J (mkNot r.2) = !truth J r.2 :=
+    fun J hJ => truth_of_eval (eval_mkNot hJ hg.wb)
+  refine ⟨⟨wb_mkNot hg.wb, fun I hI => ?_, ?_⟩, isQF_mkNot h.qf, by rw [boundOf_flip]; exact h.nd,
+    by rw [boundOf_flip]; exact h.plain, by rw [boundOf_flip]; exact h.old⟩
+  · simp only
+    rw [qsem_congr_wf _ _ (fun J => !truth J r.2) htr I hI, ← qsem_not, hg.sem I hI, truth_not]
+  · simp only
+    rw [boundOf_flip]
+    refine Supp.congr ?_ htr
+    intro J J' hJ hJ' hsym hfn hd hr hi
+    simp only
+    congr 1
+    apply hg.supp J J' hJ hJ' _ hfn hd hr hi
+    intro s hs
+    apply hsym
+    rcases List.mem_append.mp hs with h1 | h1
+    · exact List.mem_append_left _ ((fv_not t p s).mpr h1)
+    · exact List.mem_append_right _ h1
+
+theorem all2_good {n : Nat} {args : List Term} {as : List (List QBlock × Term)}
+    (h : All2 (RInv fresh n) args as) : All2 Good args as := by
+  induction h with
+  | nil => exact .nil
+  | cons hab _ ih => exact .cons hab.good ih
+
+/-- `walk_conj_disj` -/
+theorem conjDisj_good (hinj : Inj fresh) (c : Bool) {args : List Term} {as : List (List QBlock × Term)}
+    {n0 n : Nat} {fvs : List Sym} (hg : All2 (RInv fresh n0) args as) (hn : n0 ≤ n)
+    (hfv : ∀ a ∈ args, ∀ s ∈ a.fv, s ∈ fvs) (hfresh : ∀ s ∈ fvs, ∀ k, s.name ≠ fresh k) :
+    PInv fresh (conjDisj fresh c fvs as n).2 (fun I => lbop c (args.map (truth I))) fvs
+      (conjDisj fresh c fvs as n).1 ∧ n ≤ (conjDisj fresh c fvs as n).2 := by
+  obtain ⟨k1, k2, k3⟩ := mergeArgs_good hinj hg fvs n hn
+    (fun a ha s hs => hfresh s (hfv a ha s hs)) (fun s hs k _ => hfresh s hs k)
+  obtain ⟨e1, e2⟩ := mergeArgs_asRen (fresh := fresh) as fvs n
+  have hgood : All2 Good args (asRen fresh as fvs n) := all2_good k1
+  obtain ⟨m1, m2, m3⟩ := merge_good c hgood hfv k2
+  have each : ∀ r ∈ asRen fresh as fvs n, r.2.isQF = true ∧ (boundOf r.1).Nodup ∧
+      (∀ s ∈ boundOf r.1, s.params = []) ∧ ∀ s ∈ boundOf r.1, Old fresh (mergeArgs fresh as fvs n).2.2 s := by
+    intro r hr
+    obtain ⟨a, _, ha⟩ := k1.mem_right r hr
+    exact ⟨ha.qf, ha.nd, ha.plain, ha.old⟩
+  have hM : (conjDisj fresh c fvs as n).1 =
+      ((asRen fresh as fvs n).flatMap (·.1),
+        if c then mkAnd ((asRen fresh as fvs n).map (·.2)) else mkOr ((asRen fresh as fvs n).map (·.2))) := by
+    simp only [conjDisj, e1, e2]
+  refine ⟨?_, k3⟩
+  rw [hM]
+  have hbnd : ∀ s ∈ boundOf ((asRen fresh as fvs n).flatMap (·.1)), ∃ r ∈ asRen fresh as fvs n, s ∈ boundOf r.1 :=
+    fun s hs => mem_boundOf_flatMap.mp hs
+  refine ⟨m1, m2, m3, ?_, nodup_of_noClashArgs _ _ k2 (fun r hr => (each r hr).2.1), ?_, ?_⟩
+  · have hall : ∀ m ∈ (asRen fresh as fvs n).map (·.2), m.isQF = true := by
+      intro m hm
+      obtain ⟨r, hr, rfl⟩ := List.mem_map.mp hm
+      exact (each r hr).1
+    cases c
+    · simp only [Bool.false_eq_true, if_false]; exact isQF_mkOr hall
+    · simp only [if_true]; exact isQF_mkAnd hall
+  · intro s hs
+    obtain ⟨r, hr, hsr⟩ := hbnd s hs
+    exact (each r hr).2.2.1 s hsr
+  · intro s hs
+    obtain ⟨r, hr, hsr⟩ := hbnd s hs
+    exact (each r hr).2.2.2 s hsr
+
+theorem mem_fv_of_child {op : Op} (h1 : op ≠ .symbol) (h2 : op ≠ .function) (h3 : op.isQuantifier = false)
+    {args : List Term} {p : Payload} {a : Term} (ha : a ∈ args) {s : Sym} (hs : s ∈ a.fv) :
+    s ∈ (Term.node op args p).fv := by
+  rw [fv_node_plain _ _ _ h1 h2 h3]
+  simp only [List.mem_flatten, List.mem_map]
+  exact ⟨_, ⟨a, ha, rfl⟩, hs⟩
+
+theorem fv_binary {op : Op} (h1 : op ≠ .symbol) (h2 : op ≠ .function) (h3 : op.isQuantifier = false)
+    (a b : Term) (p : Payload) (s : Sym) : s ∈ (Term.node op [a, b] p).fv ↔ s ∈ a.fv ∨ s ∈ b.fv := by
+  rw [fv_node_plain _ _ _ h1 h2 h3]
+  simp
+
+theorem fv_ite (c a b : Term) (p : Payload) (s : Sym) :
+    s ∈ (Term.node .ite [c, a, b] p).fv ↔ s ∈ c.fv ∨ s ∈ a.fv ∨ s ∈ b.fv := by
+  rw [fv_node_plain _ _ _ (by decide) (by decide) rfl]
+  simp
+
+theorem all2_pair {α β : Type} {R : α → β → Prop} {a1 a2 : α} {b1 b2 : β} (h1 : R a1 b1) (h2 : R a2 b2) :
+    All2 R [a1, a2] [b1, b2] := .cons h1 (.cons h2 .nil)
+
+/-- `walk_implies` -/
+theorem rinv_implies (hinj : Inj fresh) {a b : Term} {ra rb : List QBlock × Term} {n0 n : Nat} (p : Payload)
+    {fvs : List Sym} (ha : RInv fresh n0 a ra) (hb : RInv fresh n0 b rb) (hn : n0 ≤ n)
+    (hfa : ∀ s ∈ a.fv, s ∈ fvs) (hfb : ∀ s ∈ b.fv, s ∈ fvs) (hsub : ∀ s ∈ fvs, s ∈ a.fv ∨ s ∈ b.fv)
+    (hfresh : ∀ s ∈ fvs, ∀ k, s.name ≠ fresh k) :
+    RInv fresh (prenexImplies fresh fvs ra rb n).2 (.node .implies [a, b] p) (prenexImplies fresh fvs ra rb n).1 ∧
+      n ≤ (prenexImplies fresh fvs ra rb n).2 := by
+  have hg : All2 (RInv fresh n0) [Term.node .not [a] .none, b] [prenexNot ra, rb] :=
+    all2_pair (rinv_not .none ha) hb
+  have hfv : ∀ x ∈ [Term.node .not [a] .none, b], ∀ s ∈ x.fv, s ∈ fvs := by
+    intro x hx s hs
+    simp only [List.mem_cons, List.not_mem_nil, or_false] at hx
+    rcases hx with rfl | rfl
+    · exact hfa s ((fv_not a .none s).mp hs)
+    · exact hfb s hs
+  obtain ⟨h1, h2⟩ := conjDisj_good hinj false hg hn hfv hfresh
+  refine ⟨h1.toRInv (fun I _ => ?_) (fun s hs => ?_), h2⟩
+  · simp only [lbop, Bool.false_eq_true, if_false, List.map_cons, List.map_nil, List.any_cons, List.any_nil,
+      truth_not, truth_implies, id, Bool.or_false]
+  · exact (fv_binary (by decide) (by decide) rfl a b p s).mpr (hsub s hs)
+
+/-- the conjunction of two results (`walk_iff`, `walk_ite`) -/
+theorem pinv_and2 (hinj : Inj fresh) {x y : Term} {rx ry : List QBlock × Term} {n0 n : Nat}
+    {fvs : List Sym} (hx : RInv fresh n0 x rx) (hy : RInv fresh n0 y ry) (hn : n0 ≤ n)
+    (hfx : ∀ s ∈ x.fv, s ∈ fvs) (hfy : ∀ s ∈ y.fv, s ∈ fvs) (hfresh : ∀ s ∈ fvs, ∀ k, s.name ≠ fresh k) :
+    PInv fresh (conjDisj fresh true fvs [rx, ry] n).2 (fun I => truth I x && truth I y) fvs
+      (conjDisj fresh true fvs [rx, ry] n).1 ∧ n ≤ (conjDisj fresh true fvs [rx, ry] n).2 := by
+  have hfv : ∀ t ∈ [x, y], ∀ s ∈ t.fv, s ∈ fvs := by
+    intro t ht s hs
+    simp only [List.mem_cons, List.not_mem_nil, or_false] at ht
+    rcases ht with rfl | rfl
+    · exact hfx s hs
+    · exact hfy s hs
+  obtain ⟨h1, h2⟩ := conjDisj_good hinj true (all2_pair hx hy) hn hfv hfresh
+  refine ⟨⟨h1.wb, fun I hI => ?_, h1.supp, h1.qf, h1.nd, h1.plain, h1.old⟩, h2⟩
+  rw [h1.sem I hI]
+  simp [lbop]
+
+theorem mem_l {s : Sym} {l1 l2 : List Sym} (h : s ∈ l1) : s ∈ l1 ++ l2 := List.mem_append_left _ h
+theorem mem_r {s : Sym} {l1 l2 : List Sym} (h : s ∈ l2) : s ∈ l1 ++ l2 := List.mem_append_right _ h
+
+/-! ## binders -/
+
+theorem mem_dedupSyms (s : Sym) : ∀ l : List Sym, s ∈ dedupSyms l ↔ s ∈ l
+  | [] => by simp [dedupSyms]
+  | x :: xs => by
+    rw [dedupSyms]
+    split
+    · next hc =>
+      rw [mem_dedupSyms s xs]
+      have : x ∈ xs := by simpa using hc
+      constructor
+      · exact fun h => List.mem_cons_of_mem _ h
+      · intro h
+        simp only [List.mem_cons] at h
+        rcases h with rfl | h
+        · exact this
+        · exact h
+    · simp only [List.mem_cons, mem_dedupSyms s xs]
+
+theorem dedupSyms_nodup : ∀ l : List Sym, (dedupSyms l).Nodup
+  | [] => by simp [dedupSyms]
+  | x :: xs => by
+    rw [dedupSyms]
+    split
+    · exact dedupSyms_nodup xs
+    · next hc =>
+      rw [List.nodup_cons]
+      refine ⟨fun h => hc ?_, dedupSyms_nodup xs⟩
+      have := (mem_dedupSyms x xs).mp h
+      simpa using this
+
+theorem quant_dedup (all : Bool) (k : Interp → Bool) : ∀ (vs : List Sym) (I : Interp), I.WF →
+    I.quant all vs k = I.quant all (dedupSyms vs) k
+  | [], _, _ => rfl
+  | x :: xs, I, hI => by
+    rw [dedupSyms]
+    split
+    · next hc =>
+      have hm : x ∈ xs := by simpa using hc
+      rw [quant_drop hI all (inv_quant all xs (.inl hm))]
+      exact quant_dedup all k xs I hI
+    · simp only [Interp.quant]
+      have step : ∀ v ∈ I.dom x.ret, (I.bind x v).quant all xs k = (I.bind x v).quant all (dedupSyms xs) k :=
+        fun v hv => quant_dedup all k xs _ (hI.bind x v (hI.dom_sort _ v hv))
+      rw [list_all_congr step, list_any_congr step]
+
+/-- `walk_quantifier` -/
+theorem rinv_quant (isExists : Bool) {n : Nat} {b : Term} {vs : List Sym} {rb : List QBlock × Term}
+    (hb : RInv fresh n b rb) (hp : ∀ v ∈ vs, v.params = []) (hold : ∀ v ∈ vs, Old fresh n v) :
+    RInv fresh n (.node (if isExists then .exists_ else .forall_) [b] (.qvars vs)) (prenexQuant isExists vs rb) := by
+  obtain ⟨qs, m⟩ := rb
+  have hg := hb.good
+  let nq := (dedupSyms vs).filter (fun v => !(boundOf qs).contains v)
+  have hK : ∀ I : Interp, I.WF →
+      I.quant (!isExists) nq (qsem qs (fun J => truth J m)) =
+        truth I (.node (if isExists then .exists_ else .forall_) [b] (.qvars vs)) := by
+    intro I hI
+    rw [← quant_filter (!isExists) (boundOf qs) (fun s hs => inv_qsem qs _ hs) (dedupSyms vs) I hI,
+      ← quant_dedup _ _ vs I hI,
+      quant_congr_wf _ _ (fun J => truth J b) (fun J hJ => hg.sem J hJ) vs I hI]
+    cases isExists
+    · simp only [Bool.false_eq_true, if_false, Bool.not_false, truth_forall]
+    · simp only [if_true, Bool.not_true, truth_exists]
+  have hfvq : ∀ s, s ∈ (Term.node (if isExists then Op.exists_ else Op.forall_) [b] (.qvars vs)).fv ↔
+      s ∈ b.fv ∧ s ∉ vs := by
+    intro s
+    cases isExists
+    · simp only [Bool.false_eq_true, if_false, fv_forall]
+      simp
+    · simp only [if_true, fv_exists]
+      simp
+  have hnq_mem : ∀ s, s ∈ nq ↔ s ∈ vs ∧ s ∉ boundOf qs := by
+    intro s
+    simp only [nq, List.mem_filter, mem_dedupSyms, Bool.not_eq_eq_eq_not, Bool.not_true, List.contains_eq_mem,
+      decide_eq_false_iff_not]
+  have hnq_nd : nq.Nodup := (dedupSyms_nodup vs).filter _
+  have hpq : prenexQuant isExists vs (qs, m) = if nq.isEmpty then (qs, m) else (qs ++ [(isExists, nq)], m) := rfl
+  rw [hpq]
+  -- the support of the matrix, in terms of the new node
+  have hsupp : ∀ bound' : List Sym, (∀ s ∈ boundOf qs, s ∈ bound') → (∀ s ∈ nq, s ∈ bound') →
+      Supp ((Term.node (if isExists then Op.exists_ else Op.forall_) [b] (.qvars vs)).fv ++ bound')
+        (fun J => truth J m) := by
+    intro bound' h1 h2
+    apply hg.supp.mono
+    intro s hs
+    rcases List.mem_append.mp hs with h | h
+    · by_cases hv : s ∈ vs
+      · by_cases hbd : s ∈ boundOf qs
+        · exact mem_r (h1 s hbd)
+        · exact mem_r (h2 s ((hnq_mem s).mpr ⟨hv, hbd⟩))
+      · exact mem_l ((hfvq s).mpr ⟨h, hv⟩)
+    · exact mem_r (h1 s h)
+  by_cases hemp : nq.isEmpty = true
+  · rw [if_pos hemp]
+    have hnil : nq = [] := List.isEmpty_iff.mp hemp
+    refine ⟨⟨hg.wb, fun I hI => ?_, hsupp _ (fun s hs => hs) (fun s hs => by rw [hnil] at hs; cases hs)⟩,
+      hb.qf, hb.nd, hb.plain, hb.old⟩
+    have := hK I hI
+    rw [hnil] at this
+    exact this
+  · rw [if_neg hemp]
+    have hbo : boundOf (qs ++ [(isExists, nq)]) = boundOf qs ++ nq := by simp [boundOf]
+    refine ⟨⟨hg.wb, fun I hI => ?_, ?_⟩, hb.qf, ?_, ?_, ?_⟩
+    · simp only [qsem_append, qsem]
+      exact hK I hI
+    · simp only [hbo]
+      exact hsupp _ (fun s hs => mem_l hs) (fun s hs => mem_r hs)
+    · simp only [hbo]
+      rw [List.nodup_append]
+      refine ⟨hb.nd, hnq_nd, ?_⟩
+      intro a ha c hc e
+      subst e
+      exact ((hnq_mem a).mp hc).2 ha
+    · simp only [hbo]
+      intro s hs
+      rcases List.mem_append.mp hs with h | h
+      · exact hb.plain s h
+      · exact hp s ((hnq_mem s).mp h).1
+    · simp only [hbo]
+      intro s hs
+      rcases List.mem_append.mp hs with h | h
+      · exact hb.old s h
+      · exact hold s ((hnq_mem s).mp h).1
+
+/-! ## the supply counter never decreases -/
+
+theorem mergeBlocks_le : ∀ (qs : List QBlock) (res : List Sym) (m : Term) (n : Nat),
+    n ≤ (mergeBlocks fresh qs res m n).2.2.2
+  | [], _, _, _ => Nat.le_refl _
+  | (q, vs) :: rest, res, m, n => by
+    simp only [mergeBlocks]
+    exact Nat.le_trans (Nat.le_add_right _ _) (mergeBlocks_le rest _ _ _)
+
+theorem mergeArgs_le : ∀ (as : List (List QBlock × Term)) (res : List Sym) (n : Nat),
+    n ≤ (mergeArgs fresh as res n).2.2
+  | [], _, _ => Nat.le_refl _
+  | (qs, m) :: rest, res, n => by
+    simp only [mergeArgs]
+    exact Nat.le_trans (mergeBlocks_le qs res m n) (mergeArgs_le rest _ _)
+
+theorem conjDisj_le (isAnd : Bool) (fvs : List Sym) (as : List (List QBlock × Term)) (n : Nat) :
+    n ≤ (conjDisj fresh isAnd fvs as n).2 := mergeArgs_le as fvs n
+
+theorem prenexImplies_le (fvs : List Sym) (ra rb : List QBlock × Term) (n : Nat) :
+    n ≤ (prenexImplies fresh fvs ra rb n).2 := conjDisj_le false fvs _ n
+
+theorem prenexNode_le (op : Op) (args : List Term) (p : Payload) (rs : List PRes) (n : Nat) :
     n ≤ (prenexNode fresh op args p rs n).2 := by
   unfold prenexNode
   split
@@ -13,133 +386,167 @@ theorem prenexNode_le (fresh : Nat → String) (op : Op) (args : List Term) (p :
   · simp only
     cases allSome rs with
     | none => exact Nat.le_refl _
-    | some as => exact conjDisj_le fresh true _ as n
+    | some as => exact conjDisj_le true _ as n
   · simp only
     cases allSome rs with
     | none => exact Nat.le_refl _
-    | some as => exact conjDisj_le fresh false _ as n
+    | some as => exact conjDisj_le false _ as n
   · exact Nat.le_refl _
   · exact prenexImplies_le ..
-  · exact Nat.le_trans (prenexImplies_le ..) (Nat.le_trans (prenexImplies_le ..) (conjDisj_le fresh true _ _ _))
-  · exact Nat.le_trans (prenexImplies_le ..) (Nat.le_trans (prenexImplies_le ..) (conjDisj_le fresh true _ _ _))
+  · exact Nat.le_trans (prenexImplies_le ..) (Nat.le_trans (prenexImplies_le ..) (conjDisj_le true _ _ _))
+  · exact Nat.le_trans (prenexImplies_le ..) (Nat.le_trans (prenexImplies_le ..) (conjDisj_le true _ _ _))
   all_goals exact Nat.le_refl _
 
 mutual
-theorem prenexW_le (fresh : Nat → String) : (t : Term) → ∀ n : Nat, n ≤ (prenexW fresh t n).2
+theorem prenexW_le : (t : Term) → ∀ n : Nat, n ≤ (prenexW fresh t n).2
   | .node op args p, n => by
     rw [prenexW]
-    exact Nat.le_trans (prenexL_le fresh args n) (prenexNode_le fresh op args p _ _)
-theorem prenexL_le (fresh : Nat → String) : (ts : List Term) → ∀ n : Nat, n ≤ (prenexL fresh ts n).2
+    exact Nat.le_trans (prenexL_le args n) (prenexNode_le op args p _ _)
+theorem prenexL_le : (ts : List Term) → ∀ n : Nat, n ≤ (prenexL fresh ts n).2
   | [], n => Nat.le_refl _
   | a :: as, n => by
     simp only [prenexL]
-    exact Nat.le_trans (prenexW_le fresh a n) (prenexL_le fresh as _)
+    exact Nat.le_trans (prenexW_le a n) (prenexL_le as _)
 end
 
-/-- what the walk guarantees about one (optional) result -/
-def GoodOpt (t : Term) (r : PRes) : Prop :=
-  WB t → nodupBinders t = true → ∀ x, r = some x → Good t x
+/-! ## the main induction -/
 
-theorem nodupBinders_node (op : Op) (args : List Term) (p : Payload) :
-    nodupBinders (.node op args p) =
-      ((args.map nodupBinders).all id && (match p with | .qvars vs => nodupB vs | _ => true)) := by
-  cases p <;> (rw [nodupBinders] <;> simp)
+/-- what the walk guarantees about one (optional) result at supply counter `n` -/
+def GoodOpt (fresh : Nat → String) (n : Nat) (t : Term) (r : PRes) : Prop :=
+  WB t → quantInBoolPos t = true → plainBinders t = true → Avoids fresh t → ∀ x, r = some x → RInv fresh n t x
 
-theorem nodupBinders_child {op : Op} {args : List Term} {p : Payload} (h : nodupBinders (.node op args p) = true) :
-    ∀ a ∈ args, nodupBinders a = true := by
-  intro a ha
-  rw [nodupBinders_node] at h
-  simp only [Bool.and_eq_true, List.all_eq_true, List.mem_map] at h
-  exact h.1 _ ⟨a, ha, rfl⟩
+theorem GoodOpt.mono {n n' : Nat} {t : Term} {r : PRes} (h : GoodOpt fresh n t r) (hn : n ≤ n') :
+    GoodOpt fresh n' t r := fun h1 h2 h3 h4 x hx => (h h1 h2 h3 h4 x hx).mono hn
 
-theorem nodupBinders_vars {op : Op} {args : List Term} {vs : List Sym}
-    (h : nodupBinders (.node op args (.qvars vs)) = true) : nodupB vs = true := by
-  rw [nodupBinders_node] at h
-  simp only [Bool.and_eq_true] at h
-  exact h.2
+theorem all2_mono {n n' : Nat} {ts : List Term} {rs : List PRes} (h : All2 (GoodOpt fresh n) ts rs) (hn : n ≤ n') :
+    All2 (GoodOpt fresh n') ts rs := by
+  induction h with
+  | nil => exact .nil
+  | cons hab _ ih => exact .cons (hab.mono hn) ih
 
-/-- the children's results that are present are good -/
-theorem all2_good_of_allSome {args : List Term} {rs : List PRes} (h : All2 GoodOpt args rs) :
+theorem all2_rinv_of_allSome {n : Nat} {args : List Term} {rs : List PRes} (h : All2 (GoodOpt fresh n) args rs) :
     ∀ {as : List (List QBlock × Term)}, allSome rs = some as →
-      (∀ a ∈ args, WB a) → (∀ a ∈ args, nodupBinders a = true) → All2 Good args as := by
+      (∀ a ∈ args, WB a ∧ quantInBoolPos a = true ∧ plainBinders a = true ∧ Avoids fresh a) →
+      All2 (RInv fresh n) args as := by
   induction h with
   | nil =>
-    intro as has _ _
+    intro as has _
     simp only [allSome, Option.some.injEq] at has
     subst has; exact .nil
   | @cons a r args' rs' hab _ ih =>
-    intro as has hwb hnd
+    intro as has hall
     cases r with
     | none => simp [allSome] at has
     | some x =>
       simp only [allSome, Option.map_eq_some_iff] at has
       obtain ⟨as', has', rfl⟩ := has
-      exact .cons (hab (hwb a (by simp)) (hnd a (by simp)) x rfl)
-        (ih has' (fun b hb => hwb b (by simp [hb])) (fun b hb => hnd b (by simp [hb])))
+      obtain ⟨h1, h2, h3, h4⟩ := hall a (by simp)
+      exact .cons (hab h1 h2 h3 h4 x rfl) (ih has' (fun b hb => hall b (by simp [hb])))
 
-theorem prenexNode_good (fresh : Nat → String) (op : Op) (args : List Term) (p : Payload) (rs : List PRes) (n : Nat)
-    (hrs : All2 GoodOpt args rs) (hn : (prenexNode fresh op args p rs n).2 = n) :
-    GoodOpt (.node op args p) (prenexNode fresh op args p rs n).1 := by
-  intro hwb hnd x hx
-  have hndc := nodupBinders_child hnd
-  unfold prenexNode at hn hx
+theorem prenexNode_good (hinj : Inj fresh) (op : Op) (args : List Term) (p : Payload) (rs : List PRes) (n : Nat)
+    (hrs : All2 (GoodOpt fresh n) args rs) :
+    GoodOpt fresh (prenexNode fresh op args p rs n).2 (.node op args p) (prenexNode fresh op args p rs n).1 := by
+  intro hwb hq hpl hav x hx
+  have hqc := quantInBoolPos_child hq
+  have hplc := plainBinders_child hpl
+  have havc := hav.child
+  have hfvfresh : ∀ a ∈ args, ∀ s ∈ a.fv, ∀ k, s.name ≠ fresh k := fun a ha => (havc a ha).fv
+  unfold prenexNode at hx ⊢
   split at hx
   · -- symbol
     simp only at hx
     split at hx
-    · cases hx; exact good_atom hwb
+    · cases hx; exact rinv_atom hwb (quantInBoolPos_atom hq rfl)
     · cases hx
-  · cases hx; exact good_atom hwb
+  · cases hx; exact rinv_atom hwb (quantInBoolPos_atom hq rfl)
   · -- and
-    simp only at hx hn
+    simp only at hx ⊢
     split at hx
     · next as has =>
-      simp only [has] at hn
+      simp only [has]
       cases hx
       have hch := (wb_and _ _).mp hwb
-      have hg := all2_good_of_allSome hrs has hch hndc
-      have hnc := conjDisj_eq fresh true _ as n hn
-      rw [conjDisj_nc fresh true _ as n hnc]
-      exact good_conj true hg hnc
+      have hg := all2_rinv_of_allSome hrs has (fun a ha => ⟨hch a ha, hqc a ha, hplc a ha, havc a ha⟩)
+      obtain ⟨h1, _⟩ := conjDisj_good hinj true hg (Nat.le_refl n)
+        (fun a ha s hs => mem_fv_of_child (op := .and) (p := p) (by decide) (by decide) rfl ha hs) hav.fv
+      exact h1.toRInv (fun I _ => by simp only [lbop, if_true, truth_and, List.all_map]; rfl) (fun s hs => hs)
     · cases hx
   · -- or
-    simp only at hx hn
+    simp only at hx ⊢
     split at hx
     · next as has =>
-      simp only [has] at hn
+      simp only [has]
       cases hx
       have hch := (wb_or _ _).mp hwb
-      have hg := all2_good_of_allSome hrs has hch hndc
-      have hnc := conjDisj_eq fresh false _ as n hn
-      rw [conjDisj_nc fresh false _ as n hnc]
-      exact good_conj false hg hnc
+      have hg := all2_rinv_of_allSome hrs has (fun a ha => ⟨hch a ha, hqc a ha, hplc a ha, havc a ha⟩)
+      obtain ⟨h1, _⟩ := conjDisj_good hinj false hg (Nat.le_refl n)
+        (fun a ha s hs => mem_fv_of_child (op := .or) (p := p) (by decide) (by decide) rfl ha hs) hav.fv
+      exact h1.toRInv (fun I _ => by
+        simp only [lbop, Bool.false_eq_true, if_false, truth_or, List.any_map]; rfl) (fun s hs => hs)
     · cases hx
   · -- not
-    next a pl ra =>
+    next _ a ra =>
     cases hx
     cases hrs with
-    | cons h1 _ => exact good_not _ (h1 ((wb_not _ _).mp hwb) (hndc _ (by simp)) _ rfl)
+    | cons h1 _ =>
+      exact rinv_not _ (h1 ((wb_not _ _).mp hwb) (hqc _ (by simp)) (hplc _ (by simp)) (havc _ (by simp)) _ rfl)
   · -- implies
-    next a b pl ra rb =>
+    next _ a b ra rb =>
     cases hx
     cases hrs with
     | cons h1 h2 =>
     cases h2 with
     | cons h2 _ =>
     obtain ⟨ha, hb⟩ := (wb_implies _ _ _).mp hwb
-    exact good_implies fresh n _ (fun s hs => mem_append_left' hs) (fun s hs => mem_append_right' hs)
-      (h1 ha (hndc _ (by simp)) _ rfl) (h2 hb (hndc _ (by simp)) _ rfl) hn
+    have ga := h1 ha (hqc _ (by simp)) (hplc _ (by simp)) (havc _ (by simp)) _ rfl
+    have gb := h2 hb (hqc _ (by simp)) (hplc _ (by simp)) (havc _ (by simp)) _ rfl
+    exact (rinv_implies hinj _ ga gb (Nat.le_refl n) (fun s hs => mem_l hs) (fun s hs => mem_r hs)
+      (fun s hs => List.mem_append.mp hs)
+      (fun s hs => by
+        rcases List.mem_append.mp hs with h | h
+        · exact hfvfresh a (by simp) s h
+        · exact hfvfresh b (by simp) s h)).1
   · -- iff
-    next a b pl ra rb =>
+    next _ a b ra rb =>
     cases hx
     cases hrs with
     | cons h1 h2 =>
     cases h2 with
     | cons h2 _ =>
     obtain ⟨ha, hb⟩ := (wb_iff _ _ _).mp hwb
-    exact good_iff fresh n _ (h1 ha (hndc _ (by simp)) _ rfl) (h2 hb (hndc _ (by simp)) _ rfl) hn
+    have ga := h1 ha (hqc _ (by simp)) (hplc _ (by simp)) (havc _ (by simp)) _ rfl
+    have gb := h2 hb (hqc _ (by simp)) (hplc _ (by simp)) (havc _ (by simp)) _ rfl
+    have hfr : ∀ s ∈ a.fv ++ b.fv, ∀ k, s.name ≠ fresh k := by
+      intro s hs
+      rcases List.mem_append.mp hs with h | h
+      · exact hfvfresh a (by simp) s h
+      · exact hfvfresh b (by simp) s h
+    have hfr' : ∀ s ∈ b.fv ++ a.fv, ∀ k, s.name ≠ fresh k := by
+      intro s hs
+      rcases List.mem_append.mp hs with h | h
+      · exact hfvfresh b (by simp) s h
+      · exact hfvfresh a (by simp) s h
+    obtain ⟨i1, l1⟩ := rinv_implies hinj .none ga gb (Nat.le_refl n) (fun s hs => mem_l hs) (fun s hs => mem_r hs)
+      (fun s hs => List.mem_append.mp hs) hfr
+    obtain ⟨i2, l2⟩ := rinv_implies hinj .none gb ga l1 (fun s hs => mem_l hs) (fun s hs => mem_r hs)
+      (fun s hs => List.mem_append.mp hs) hfr'
+    have hfx : ∀ s ∈ (Term.node .implies [a, b] .none).fv, s ∈ a.fv ++ b.fv := by
+      intro s hs
+      rcases (fv_binary (by decide) (by decide) rfl a b .none s).mp hs with h | h
+      · exact mem_l h
+      · exact mem_r h
+    have hfy : ∀ s ∈ (Term.node .implies [b, a] .none).fv, s ∈ a.fv ++ b.fv := by
+      intro s hs
+      rcases (fv_binary (by decide) (by decide) rfl b a .none s).mp hs with h | h
+      · exact mem_r h
+      · exact mem_l h
+    obtain ⟨h3, _⟩ := pinv_and2 hinj (i1.mono l2) i2 (Nat.le_refl _) hfx hfy hfr
+    refine h3.toRInv (fun I _ => ?_) (fun s hs => ?_)
+    · rw [truth_implies, truth_implies, truth_iff]
+      cases truth I a <;> cases truth I b <;> rfl
+    · exact (fv_binary (by decide) (by decide) rfl a b _ s).mpr (List.mem_append.mp hs)
   · -- ite
-    next c a b pl rc ra rb =>
+    next _ c a b rc ra rb =>
     cases hx
     cases hrs with
     | cons h1 h2 =>
@@ -148,59 +555,99 @@ theorem prenexNode_good (fresh : Nat → String) (op : Op) (args : List Term) (p
     cases h3 with
     | cons h3 _ =>
     obtain ⟨hc, ha, hb⟩ := (wb_ite _ _ _ _).mp hwb
-    exact good_ite fresh n _ (h1 hc (hndc _ (by simp)) _ rfl) (h2 ha (hndc _ (by simp)) _ rfl)
-      (h3 hb (hndc _ (by simp)) _ rfl) hn
+    have gc := h1 hc (hqc _ (by simp)) (hplc _ (by simp)) (havc _ (by simp)) _ rfl
+    have ga := h2 ha (hqc _ (by simp)) (hplc _ (by simp)) (havc _ (by simp)) _ rfl
+    have gb := h3 hb (hqc _ (by simp)) (hplc _ (by simp)) (havc _ (by simp)) _ rfl
+    have fc := hfvfresh c (by simp); have fa := hfvfresh a (by simp); have fb := hfvfresh b (by simp)
+    have hfr1 : ∀ s ∈ c.fv ++ a.fv, ∀ k, s.name ≠ fresh k := by
+      intro s hs
+      rcases List.mem_append.mp hs with h | h
+      · exact fc s h
+      · exact fa s h
+    have hfr2 : ∀ s ∈ c.fv ++ b.fv, ∀ k, s.name ≠ fresh k := by
+      intro s hs
+      rcases List.mem_append.mp hs with h | h
+      · exact fc s h
+      · exact fb s h
+    have hfr3 : ∀ s ∈ c.fv ++ a.fv ++ b.fv, ∀ k, s.name ≠ fresh k := by
+      intro s hs
+      rcases List.mem_append.mp hs with h | h
+      · exact hfr1 s h
+      · exact fb s h
+    obtain ⟨i1, l1⟩ := rinv_implies hinj .none gc ga (Nat.le_refl n) (fun s hs => mem_l hs) (fun s hs => mem_r hs)
+      (fun s hs => List.mem_append.mp hs) hfr1
+    have gnc : RInv fresh n (Term.node .not [c] .none) (prenexNot rc) := rinv_not .none gc
+    obtain ⟨i2, l2⟩ := rinv_implies hinj .none gnc gb l1
+      (fun s hs => mem_l ((fv_not c .none s).mp hs)) (fun s hs => mem_r hs)
+      (fun s hs => by
+        rcases List.mem_append.mp hs with h | h
+        · exact .inl ((fv_not c .none s).mpr h)
+        · exact .inr h) hfr2
+    have hfx : ∀ s ∈ (Term.node .implies [c, a] .none).fv, s ∈ c.fv ++ a.fv ++ b.fv := by
+      intro s hs
+      rcases (fv_binary (by decide) (by decide) rfl c a .none s).mp hs with h | h
+      · exact mem_l (mem_l h)
+      · exact mem_l (mem_r h)
+    have hfy : ∀ s ∈ (Term.node .implies [Term.node .not [c] .none, b] .none).fv, s ∈ c.fv ++ a.fv ++ b.fv := by
+      intro s hs
+      rcases (fv_binary (by decide) (by decide) rfl _ b .none s).mp hs with h | h
+      · exact mem_l (mem_l ((fv_not c .none s).mp h))
+      · exact mem_r h
+    obtain ⟨h4, _⟩ := pinv_and2 hinj (i1.mono l2) i2 (Nat.le_refl _) hfx hfy hfr3
+    refine h4.toRInv (fun I _ => ?_) (fun s hs => ?_)
+    · rw [truth_implies, truth_implies, truth_not, truth_ite]
+      cases truth I c <;> cases truth I a <;> cases truth I b <;> rfl
+    · refine (fv_ite c a b _ s).mpr ?_
+      rcases List.mem_append.mp hs with h | h
+      · rcases List.mem_append.mp h with h | h
+        · exact .inl h
+        · exact .inr (.inl h)
+      · exact .inr (.inr h)
   · -- function
     simp only at hx
     split at hx
-    · cases hx; exact good_atom hwb
+    · cases hx; exact rinv_atom hwb (quantInBoolPos_atom hq rfl)
     · cases hx
   · -- forall
-    next b vs rb =>
+    next _ b vs rb =>
     cases hx
     cases hrs with
     | cons h1 _ =>
-    exact good_quant false (h1 ((wb_forall _ _).mp hwb) (hndc _ (by simp)) _ rfl) (nodupBinders_vars hnd)
+    exact rinv_quant false (h1 ((wb_forall _ _).mp hwb) (hqc _ (by simp)) (hplc _ (by simp)) (havc _ (by simp)) _ rfl)
+      (plainBinders_vars hpl) (fun v hv k _ => hav v (allSyms_qvars hv) k)
   · -- exists
-    next b vs rb =>
+    next _ b vs rb =>
     cases hx
     cases hrs with
     | cons h1 _ =>
-    exact good_quant true (h1 ((wb_exists _ _).mp hwb) (hndc _ (by simp)) _ rfl) (nodupBinders_vars hnd)
+    exact rinv_quant true (h1 ((wb_exists _ _).mp hwb) (hqc _ (by simp)) (hplc _ (by simp)) (havc _ (by simp)) _ rfl)
+      (plainBinders_vars hpl) (fun v hv k _ => hav v (allSyms_qvars hv) k)
   all_goals first
-    | (cases hx; exact good_atom hwb)
-    | (simp only at hx; split at hx <;> first | (cases hx; exact good_atom hwb) | cases hx)
+    | (cases hx; exact rinv_atom hwb (quantInBoolPos_atom hq rfl))
+    | (simp only at hx; split at hx <;> first | (cases hx; exact rinv_atom hwb (quantInBoolPos_atom hq rfl)) | cases hx)
     | cases hx
 
 mutual
-theorem prenexW_good (fresh : Nat → String) : (t : Term) → ∀ n : Nat, (prenexW fresh t n).2 = n →
-    GoodOpt t (prenexW fresh t n).1
-  | .node op args p, n, h => by
-    rw [prenexW] at h ⊢
-    have l1 := prenexL_le fresh args n
-    have l2 := prenexNode_le fresh op args p (prenexL fresh args n).1 (prenexL fresh args n).2
-    have e1 : (prenexL fresh args n).2 = n := by omega
-    rw [e1] at h ⊢
-    exact prenexNode_good fresh op args p _ n (prenexL_good fresh args n e1) h
-theorem prenexL_good (fresh : Nat → String) : (ts : List Term) → ∀ n : Nat, (prenexL fresh ts n).2 = n →
-    All2 GoodOpt ts (prenexL fresh ts n).1
-  | [], _, _ => .nil
-  | a :: as, n, h => by
-    simp only [prenexL] at h ⊢
-    have l1 := prenexW_le fresh a n
-    have l2 := prenexL_le fresh as (prenexW fresh a n).2
-    have e1 : (prenexW fresh a n).2 = n := by omega
-    rw [e1] at h ⊢
-    exact .cons (prenexW_good fresh a n e1) (prenexL_good fresh as n h)
+theorem prenexW_good (hinj : Inj fresh) : (t : Term) → ∀ n : Nat,
+    GoodOpt fresh (prenexW fresh t n).2 t (prenexW fresh t n).1
+  | .node op args p, n => by
+    rw [prenexW]
+    exact prenexNode_good hinj op args p _ _ (prenexL_good hinj args n)
+theorem prenexL_good (hinj : Inj fresh) : (ts : List Term) → ∀ n : Nat,
+    All2 (GoodOpt fresh (prenexL fresh ts n).2) ts (prenexL fresh ts n).1
+  | [], _ => .nil
+  | a :: as, n => by
+    simp only [prenexL]
+    exact .cons ((prenexW_good hinj a n).mono (prenexL_le as _)) (prenexL_good hinj as _)
 end
 
-/-- **`prenex_equiv_partial`**: when no bound variable has to be renamed, the prenex normal form
-has the value of the input under every interpretation -/
-theorem prenex_equiv_noRename (fresh : Nat → String) (t r : Term) (hwf : t.wf = true) (hty : t.typeOf = some .bool)
-    (hnd : nodupBinders t = true) (hnr : noRename fresh t = true) (h : prenex fresh t = some r)
-    (I : Interp) (hI : I.WF) : eval I r = eval I t := by
+/-- **`prenex_equiv`**: for every input whose quantifiers occur in Boolean positions, whose binders bind
+plain symbols, and every supply of pairwise different names none of which occurs in the input, the prenex
+normal form has the value of the input under every interpretation -/
+theorem prenex_equiv_main (hinj : Inj fresh) (t r : Term) (hwf : t.wf = true) (hty : t.typeOf = some .bool)
+    (hq : quantInBoolPos t = true) (hpl : plainBinders t = true) (hav : Avoids fresh t)
+    (h : prenex fresh t = some r) (I : Interp) (hI : I.WF) : eval I r = eval I t := by
   have hwb : WB t := ⟨hwf, hty⟩
-  have hn : (prenexW fresh t 0).2 = 0 := by simpa [noRename] using hnr
   unfold prenex at h
   cases hw : (prenexW fresh t 0).1 with
   | none => rw [hw] at h; cases h
@@ -208,8 +655,10 @@ theorem prenex_equiv_noRename (fresh : Nat → String) (t r : Term) (hwf : t.wf 
     rw [hw] at h
     simp only [Option.map_some, Option.some.injEq] at h
     subst h
-    have hg := prenexW_good fresh t 0 hn hwb hnd x hw
+    have hg := (prenexW_good hinj t 0 hwb hq hpl hav x hw).good
     have hws := wrap_sem x.1 x.2 hg.wb
     rw [hws.1.isB hI, hws.2 I hI, hg.sem I hI, hwb.isB hI]
+
+end
 
 end PySMT.Rewritings
